@@ -331,6 +331,26 @@ K['k17_fully_masked_load_and_store_then_real_load'] = PRO + """
   s_endpgm
 """
 
+# a load and a younger store in flight together, waited for with vmcnt(1): the older access (the load) must have
+# returned when the wait completes, whichever of the two the memory hierarchy could answer first. The first store
+# warms the store's line and translation, so that on a real platform the second store is acknowledged quickly
+# while the load goes all the way to DRAM.
+K['k18_cold_load_then_warm_store_wait_vmcnt1'] = PRO + """
+  s_load_dwordx2 s[8:9], s[0:1], 0x0
+  s_load_dwordx2 s[12:13], s[0:1], 0x28
+  s_waitcnt lgkmcnt(0)
+""" + gaddr('v9','v10','s8','s9') + gaddr('v7','v8','s4','s5') + gaddr('v13','v14','s12','s13') + """
+  flat_store_dword v[13:14], v0
+  s_waitcnt vmcnt(0)
+  flat_load_dword v5, v[9:10]
+  flat_store_dword v[13:14], v0
+  s_waitcnt vmcnt(1)
+  v_add_u32 v6, vcc, 3, v5
+  flat_store_dword v[7:8], v6
+  s_waitcnt vmcnt(0)
+  s_endpgm
+"""
+
 K['k15_uncoalesced_64_lines_per_load'] = PRO + """
   s_load_dwordx2 s[8:9], s[0:1], 0x0
   v_and_b32 v4, 63, v0
